@@ -199,24 +199,28 @@ func runCheck(repo, verif, id, tier string, writeLedger bool) int {
 	all = append(all, gobls...)
 
 	SolveAll(work, all, timeout, runtime.NumCPU())
-	// retry undecided with the long timeout
+	// ledger
+	ledPath := filepath.Join(verif, "ledger", id+".json")
+	var led Ledger
+	if data, err := os.ReadFile(ledPath); err == nil {
+		json.Unmarshal(data, &led)
+	}
+	// retry undecided obligations with a longer timeout, but only where a proof is expected
+	// (function unchanged w.r.t. the ledger); changed functions go straight to counterexample search
+	hashNow := map[string]string{}
+	for _, r := range reps {
+		hashNow[r.Key] = r.Hash
+	}
 	var retry []*Obligation
 	for _, o := range all {
-		if o.Result == "unknown" || o.Result == "timeout" {
-			if !(o.Cover) {
+		if (o.Result == "unknown" || o.Result == "timeout") && !o.Cover {
+			if writeLedger || led.Functions == nil || led.Functions[o.Func] == hashNow[o.Func] {
 				retry = append(retry, o)
 			}
 		}
 	}
 	if len(retry) > 0 && tier == "quick" {
 		SolveAll(work, retry, 30, runtime.NumCPU())
-	}
-
-	// ledger
-	ledPath := filepath.Join(verif, "ledger", id+".json")
-	var led Ledger
-	if data, err := os.ReadFile(ledPath); err == nil {
-		json.Unmarshal(data, &led)
 	}
 	if writeLedger {
 		nl := Ledger{Property: id, Functions: map[string]string{}, Obls: map[string]string{}, DeadExits: map[string]bool{}}
